@@ -306,11 +306,11 @@ def split_chunks(records, nchunks, is_start=lambda r: r.get("e") == "reset"):
     return chunks
 
 
-def validate_monitor(module, cfg, dirs, records, procs=12, timeout=900, sets=("bad", "drift"), extra_files=None, xss="512m"):
+def validate_monitor(module, cfg, dirs, records, procs=12, timeout=900, sets=("bad", "drift"), extra_files=None, xss="512m", is_start=None):
     """Run the monitor trace spec over `records` (list of dicts) split at reset boundaries.
     Returns (result dict name -> sorted list of GLOBAL 0-based record indices, stats)."""
     from concurrent.futures import ThreadPoolExecutor
-    chunks = split_chunks(records, procs)
+    chunks = split_chunks(records, procs, is_start) if is_start else split_chunks(records, procs)
     res = {s: [] for s in sets}
     stats = dict(generated=0, distinct=0, lines=0, wall=0.0, chunks=len(chunks))
 
